@@ -130,16 +130,21 @@ def induction_rule(ctx, rid):
     ctx.touch(mu)
     loops = [s for s in ast.walk(mu.node) if isinstance(s, ast.For)]
     okm = len(loops) == 2 and norm(loops[0].iter) == "range(self.n)" and norm(loops[1].iter) in ("range(i, self.n)",) and any(norm(s) == "self.rcs[i, j].update(x[i], x[j])" for s in ast.walk(mu.node) if isinstance(s, ast.Expr))
+    upd = [s for s in ast.walk(mu.node) if isinstance(s, ast.Expr) and isinstance(s.value, ast.Call) and norm(s.value.func).startswith("self.rcs[") and norm(s.value.func).endswith(".update")]
     if okm:
         rr.ok("RunningCovarianceMatrix.update: rcs[i, j].update(x[i], x[j]) once per pair i <= j")
-    else:
+    elif len(loops) == 2 and all(norm(l.iter).startswith("range(") for l in loops) and upd:
         rr.bad(ctx.finding(rid, mu, mu.node, "RunningCovarianceMatrix.update no longer updates each pair (i <= j) exactly once with (x[i], x[j])", construct="matrix-update"), "matrix update")
+    else:
+        raise AnalysisError("idiom changed: RunningCovarianceMatrix.update is not the nested range loop over pairs")
     for pname, attr in (("covar_matrix", "covar"), ("sample_covar_matrix", "sample_covar")):
         pm = mx.methods.get(pname)
         ctx.touch(pm)
         txt = " ".join(norm(s) for s in pm.node.body)
         if "covar_matrix[i, j] = self.rcs[i, j].%s" % attr in txt and "covar_matrix[i, j] = self.rcs[j, i].%s" % attr in txt and "if j >= i" in txt:
             rr.ok("%s: symmetric fill from rcs[min, max].%s" % (pname, attr))
+        elif "covar_matrix[" not in txt:
+            raise AnalysisError("idiom changed: %s does not fill `covar_matrix[i, j]` itself" % pname)
         else:
             rr.bad(ctx.finding(rid, pm, pm.node, "%s is not filled symmetrically from rcs[i, j] (j >= i) / rcs[j, i]" % pname, construct="matrix-fill " + pname), "matrix fill %s" % pname)
     return rr
@@ -308,8 +313,15 @@ def stopping_rule(ctx, rid):
         rr.bad(ctx.finding(rid, f, ups[0][1] if ups else f.node, "a drawn value does not reach rs.update exactly once before the exit tests (the statistics are not those of exactly the samples drawn, or convergence is tested on stale statistics)", construct="update-per-draw"), "update per draw")
     # samples mode: appended exactly once
     apps = [n for n in g.nodes if n.kind == "stmt" and norm(n.ast) == "xs.append(%s)" % (norm(draws[0][0].ast.targets[0]) if draws and isinstance(draws[0][0].ast, ast.Assign) else "x")]
-    if len(apps) == 1 and isinstance(getattr(apps[0].ast, "_parent", None), ast.If) and norm(getattr(apps[0].ast, "_parent").test) == "get == 'samples'":
+    def _samples_test(t):
+        if isinstance(t, ast.Name):
+            d = single_def(f, t.id, g)
+            return d is not None and d[1] is not None and _samples_test(d[1])
+        return norm(t) in ("get == 'samples'", "'samples' == get")
+    if len(apps) == 1 and isinstance(getattr(apps[0].ast, "_parent", None), ast.If) and _samples_test(getattr(apps[0].ast, "_parent").test) and apps[0].ast in getattr(apps[0].ast, "_parent").body:
         rr.ok("samples mode: the drawn value is appended exactly once")
+    elif len(apps) == 1 and isinstance(getattr(apps[0].ast, "_parent", None), ast.If) and not isinstance(getattr(apps[0].ast, "_parent").test, ast.Compare) and "get" not in norm(getattr(apps[0].ast, "_parent").test):
+        raise AnalysisError("idiom changed: guard of xs.append in estimate_from_repeats: %s" % norm(getattr(apps[0].ast, "_parent").test))
     else:
         rr.bad(ctx.finding(rid, f, f.node, "in samples mode the drawn value is not recorded exactly once", construct="samples-append"), "samples append")
     # classify the breaks
@@ -319,7 +331,10 @@ def stopping_rule(ctx, rid):
         p = getattr(b.ast, "_parent", None)
         while p is not None and p is not lp:
             if isinstance(p, ast.If):
-                conds.append(p.test)
+                if isinstance(p.test, ast.BoolOp) and isinstance(p.test.op, ast.And):
+                    conds.extend(p.test.values)
+                else:
+                    conds.append(p.test)
             p = getattr(p, "_parent", None)
         kinds[b.id] = conds
     conv = [b for b, cs in kinds.items() if any("converged" in norm(c) for c in cs)]
